@@ -427,7 +427,7 @@ Section Proofs.
 
   Definition links_inv (c : sched_state) (applied rem : list link) : Prop :=
     L = applied ++ rem /\
-    Forall (fun l => l_src_gen l < sc_linked c) applied /\
+    Forall (fun l => l_src_gen l < sc_ran c) applied /\
     Forall (fun l => sc_linked c <= l_src_gen l) rem.
 
   Definition sched_ok (c : sched_state) : Prop :=
@@ -720,7 +720,8 @@ Section Proofs.
     - (* sched_ok *)
       destruct Hok as (H1 & H2 & H3 & H4). unfold sched_ok. cbn. repeat split; auto; try lia.
     - (* links *)
-      unfold links_inv. cbn. auto.
+      unfold links_inv. cbn [c_run sc_ran sc_linked sc_written]. split; [exact HL|]. split; [|exact Hrem].
+      eapply Forall_impl; [|exact Happ]. cbn. intros; lia.
     - (* memory *)
       split; [lia|]. intros m md Hm.
       assert (Hmd : In md M) by (eapply nth_error_In; eauto).
@@ -951,6 +952,30 @@ Section Proofs.
       destruct (Q2 m md Hm) as (mr & A & B). exists mr. split; [exact A|].
       eapply model_inv_weaken; [| | |exact B]; cbn; lia.
     - exact Hfile.
+  Qed.
+
+  (** one turn of the link loop *)
+  Lemma step_link_one c st d applied :
+    INV c st d applied -> sc_ran c = S (sc_linked c) ->
+    exists st' applied',
+      impl_step s_zero s_add cat K name_eqb gr sel st (ALinkOne (sc_linked c)) = Some st' /\
+      INV c st' d applied'.
+  Proof.
+    intros HI Hran. pose proof HI as (Hrun & Hwf & Hok & (HL & Happ & Hrem) & Hmem & Hfile).
+    destruct Hok as (Hok1 & Hok2 & Hok3 & Hok4).
+    cbn [impl_step]. destruct (is_links st) as [|l rest] eqn:El.
+    - exists st, applied. split; [reflexivity|exact HI].
+    - destruct (sc_linked c <? l_src_gen l) eqn:Elt.
+      + exists st, applied. split; [reflexivity|exact HI].
+      + apply Nat.ltb_ge in Elt. inversion Hrem as [|? ? Hl0 Hrest]; subst.
+        assert (Hsrc : l_src_gen l = sc_linked c) by lia.
+        destruct (apply_link_ok c d applied l rest (is_refs st) Hran Hok3 Hwf HL Hsrc Hmem) as (refs1 & A1 & M1).
+        rewrite A1. cbn [obind]. eexists. exists (applied ++ [l]). split; [reflexivity|].
+        unfold INV. cbn [is_refs is_links is_file].
+        split; [exact Hrun|]. split; [exact Hwf|]. split; [unfold sched_ok; auto|].
+        split; [|split; [exact M1|exact Hfile]].
+        unfold links_inv. split; [rewrite <- app_assoc; exact HL|]. split; [|exact Hrest].
+        apply Forall_app. split; [exact Happ|]. constructor; [lia|constructor].
   Qed.
 
   (** ---------- writeGeneration(g) ---------- *)
@@ -1280,7 +1305,7 @@ Section Proofs.
       destruct (sched_next G outp c a) as [c1|] eqn:Hn; cbn [obind] in Hrun; [|discriminate].
       fold (sched_run G outp sch c1) in Hrun.
       unfold impl_exec. cbn [foldM]. fold (impl_exec s_zero s_add cat K name_eqb gr sel sch).
-      destruct a as [i|i|g|g]; cbn [sched_next] in Hn.
+      destruct a as [i|i|i|g|g]; cbn [sched_next] in Hn.
       + (* ARun *)
         destruct ((i =? sc_ran c) && (sc_ran c =? sc_linked c) && (i <? G)) eqn:Ec; [|discriminate].
         inversion Hn; subst c1. clear Hn.
@@ -1292,6 +1317,13 @@ Section Proofs.
         destruct (impl_step s_zero s_add cat K name_eqb gr sel st (ARun (sc_ran c))) as [st1|];
           destruct (ref_gen d (sc_ran c)) as [d1|]; cbn [orel obind] in *; try contradiction; [|exact I].
         apply (IH (c_run c) st1 d1 applied c' SR Hrun Hcomp).
+      + (* ALinkOne *)
+        destruct ((i =? sc_linked c) && (sc_ran c =? S (sc_linked c))) eqn:Ec; [|discriminate].
+        inversion Hn; subst c1. clear Hn.
+        apply andb_true_iff in Ec. destruct Ec as [E1 E2]. apply Nat.eqb_eq in E1, E2. subst i.
+        destruct (step_link_one c st d applied HI E2) as (st1 & applied1 & S1 & I1).
+        rewrite S1. cbn [obind].
+        apply (IH c st1 d applied1 c' I1 Hrun Hcomp).
       + (* ALinks *)
         destruct ((i =? sc_linked c) && (sc_ran c =? S (sc_linked c))) eqn:Ec; [|discriminate].
         inversion Hn; subst c1. clear Hn.
